@@ -13,7 +13,8 @@ On break: harness `oracle` evaluates the property directly on the real code with
 """
 import os
 
-THEOREMS = ["IstioModel.C10.Theorems", "IstioModel.C10.Chains", "IstioModel.C10.InboundTheorems", "IstioModel.C10.GenTie",
+THEOREMS = ["IstioModel.C10.Theorems", "IstioModel.C10.Chains", "IstioModel.C10.InboundTheorems", "IstioModel.C10.InboundSelect",
+            "IstioModel.C10.GenTie",
             "IstioModel.C10.AmbientTheorems"]
 GENERATED = os.path.join(os.path.dirname(os.path.dirname(os.path.abspath(__file__))), "lean", "IstioModel", "Generated", "C10Chains.lean")
 STREAMS = ("compose", "ambient", "inbound")
@@ -84,6 +85,61 @@ def oracle(ctx, stream, case_lines, rep):
     return None
 
 
+def branch_counters(ctx, stream):
+    """Input-distribution counters beyond the op counts: which branches of the generators' space a run reached."""
+    import re
+    g = os.path.join(ctx.work, "%s.gen.ops" % stream)
+    impl = os.path.join(ctx.work, "%s.run.impl" % stream)
+    if not (os.path.exists(g) and os.path.exists(impl)):
+        return
+    ops, out = ctx.read_lines(g), ctx.read_lines(impl)
+    for l, o in zip(ops, out):
+        f = l.split()
+        if not f:
+            continue
+        op = f[0]
+        if op == "pa":
+            ctx.count("%s.pa.level.%s" % (stream, "selector" if f[4] not in ("nil", "-") else ("empty-selector" if f[4] == "-" else "ns-or-mesh")))
+            ctx.count("%s.pa.mode.%s" % (stream, f[5]))
+            if f[6] != "-":
+                ctx.count("%s.pa.port-level" % stream)
+        elif op == "q":
+            for m in re.findall(r"Q=(\S+)", o):
+                for e in m.split(","):
+                    ctx.count("%s.q.mode.%s" % (stream, e.split(":")[-1]))
+        elif op == "chk":
+            ctx.count("%s.chk.dr.%s" % (stream, "none" if f[5] == "nil" else ("structured" if "/" in f[5] else "rule-level")))
+            ctx.count("%s.chk.result.%s" % (stream, o.split()[0] if o else "?"))
+        elif op == "cl":
+            ctx.count("%s.cl.kind.%s" % (stream, f[4]))
+            ctx.count("%s.cl.port.%s" % (stream, f[5]))
+            ctx.count("%s.cl.outcome.%s" % (stream, " ".join(o.split()[:2])))
+        elif op == "ils":
+            ctx.count("%s.ils.merge.%s" % (stream, f[4]))
+            if len(f) == 6 and f[5] == "1":
+                ctx.count("%s.ils.interception-none" % stream)
+            for e in f[3].split(","):
+                p = e.split(":")
+                if len(p) == 4:
+                    ctx.count("%s.ils.ingress.proto.%s" % (stream, p[1]))
+                    if p[2] == "1":
+                        ctx.count("%s.ils.ingress.user-tls" % stream)
+                    if p[3] == "1":
+                        ctx.count("%s.ils.ingress.capture-none" % stream)
+        elif op == "ilp":
+            for n in f[3].split(":"):
+                ctx.count("%s.ilp.protocol.%s" % (stream, n))
+        if op in ("il", "ils", "ilh", "ilp"):
+            ctx.count("%s.listener.custom-listeners" % stream, len(set(re.findall(r"L(\d+)/", o))))
+            ctx.count("%s.listener.tls-inspector-ports" % stream, len(re.findall(r"ti:", o)))
+            ctx.count("%s.listener.user-tls-chains" % stream, len(re.findall(r":1\.0\.[01]\.1(?:,| |$)", o)))
+        elif op == "aq":
+            k = re.search(r"K=(\S+)", o)
+            if k:
+                ks = k.group(1)
+                ctx.count("%s.aq.keys.%s" % (stream, "none" if ks == "-" else ("static+converted" if "," in ks else ("static" if "static_strict" in ks else "converted"))))
+
+
 def nontrivial(cur, curo):
     return any(l.startswith("pa ") for l in cur)
 
@@ -138,9 +194,11 @@ def run(ctx):
                                "generated_table": open(GENERATED).read()}, True)
     if not ctx.build_drv():
         return
-    sizes = {"compose": ctx.n(20000, 300000), "ambient": ctx.n(20000, 300000), "inbound": ctx.n(500, 8000)}
+    # quick tier sized to stay within budget on a loaded box (the e2e ops of `inbound` cost 25-40 ms each)
+    sizes = {"compose": ctx.n(12000, 300000), "ambient": ctx.n(12000, 300000), "inbound": ctx.n(350, 8000)}
     for stream in STREAMS:
         ctx.diff_stream(stream, sizes[stream], oracle=oracle, nontrivial=nontrivial)
+        branch_counters(ctx, stream)
     # second line: the oracle on every corpus and generated case, independent of the model
     for stream in STREAMS:
         files = []
@@ -213,7 +271,7 @@ MANIFEST = {
                    "run by three line-by-line differentials against the real functions (incl. the real LDS/CDS/EDS generators, selectAuthnPolicies, "
                    "buildWorkloadPolicies and PolicyCollections) and one regenerated table."),
     "level_note": ("Trusted: Lean kernel + {propext, Classical.choice, Quot.sound}; the hand-written model (tied by differential testing: "
-                   "~40500 cases quick, ~610000 thorough, plus a 16-row generated table proved equal by decide); four verif-tagged "
+                   "~24400 cases quick, ~610000 thorough, plus a 16-row generated table proved equal by decide); four verif-tagged "
                    "accessor files zz_verif_c10.go; Envoy filter-chain selection and ztunnel DENY-policy semantics are Lean definitions "
                    "written from documentation (no data-plane binary). Hypotheses: (namespace,name) unique, port-level settings are a map, "
                    "no port-level entry for port 0, endpoint namespace kept by the client's sidecar scope, no waypoint service namespaces "
